@@ -107,6 +107,10 @@ BUILTINS = {'dict', 'range', 'enumerate', 'str', 'int', 'len', 'abs', 'isinstanc
             'TimeoutError', 'ord', 'chr', 'filter', 'callable', 'format', 'hash', 'bytes', 'float'}
 
 
+# standard-library modules whose functions are pure functions of immutable arguments: evaluated natively by the folder
+PURE_MODULES = {'bisect', 'math', 'operator', 'string'}
+
+
 class Folder:
     def __init__(self, repo: Repo, max_steps: int = 20000, allow_loops: bool = False):
         self.repo = repo
@@ -254,6 +258,13 @@ class Folder:
                 return ('pyfunc', getattr(_re, name))
             if name in ('IGNORECASE', 'I', 'MULTILINE', 'DOTALL'):
                 return getattr(_re, name)
+        if isinstance(obj, tuple) and len(obj) == 2 and obj[0] == 'pymodule' and obj[1].split('.')[0] in PURE_MODULES:
+            import importlib
+            try:
+                v = getattr(importlib.import_module(obj[1]), name)
+            except (ImportError, AttributeError):
+                raise Unsupported(f'attribute {name} of module {obj[1]}')
+            return ('pyfunc', v) if callable(v) else v
         if isinstance(obj, tuple) and len(obj) == 2 and obj[0] == 'pymodule':
             return ('extern', f'{obj[1]}.{name}')      # opaque constant of a module outside the package
         import re as _re2
@@ -523,7 +534,19 @@ class Folder:
             if r[0] == 'class':
                 return ClsRef(r[1])
             if r[0] == 'const':
-                return self._eval(r[2], {}, r[1], None)
+                # a module-level constant is evaluated once, as at import time
+                ck = (r[1].name, id(r[2]))
+                cache = self.__dict__.setdefault('_const_cache', {})
+                if ck not in cache:
+                    cache[ck] = self._eval(r[2], {}, r[1], None)
+                return cache[ck]
+            if r[0] == 'external' and r[1].split('.')[0] in PURE_MODULES:
+                import importlib
+                try:
+                    v = getattr(importlib.import_module(r[1]), r[2])
+                except (ImportError, AttributeError):
+                    raise Unsupported(f'name {name} ({r[1]}.{r[2]})')
+                return ('pyfunc', v) if callable(v) else v
             if r[0] == 'func':
                 return ('func', r[1], r[2])
             if r[0] == 'module' and r[1] == 're':
